@@ -67,7 +67,7 @@ Stats0 == [records |-> 0, patches |-> 0, refusals |-> 0, builder_panics |-> 0, a
            arb_agree |-> 0, long_records |-> 0]
 
 RECURSIVE SumBy(_, _)
-SumBy(outs, k) == IF k > Len(outs) THEN 0 ELSE Len(outs[k].by) + SumBy(outs, k + 1)
+SumBy(outs, k) == IF k > Len(outs) THEN 0 ELSE Len(outs[k].by) + SumBy(outs, Now(k + 1))
 
 \* ---- the patch as an independent reader sees it ---------------------------
 WellFormed(e) ==
@@ -80,7 +80,7 @@ AllChunked(e) == \A i \in 1..Len(e.cfgs) : e.cfgs[i][1] = "chunked"
 
 \* a non-zero seek that a later diff entry depends on
 RECURSIVE FirstSeek(_, _)
-FirstSeek(ctrl, k) == IF k > Len(ctrl) THEN 0 ELSE IF ctrl[k][3] # 0 THEN k ELSE FirstSeek(ctrl, k + 1)
+FirstSeek(ctrl, k) == IF k > Len(ctrl) THEN 0 ELSE IF ctrl[k][3] # 0 THEN k ELSE FirstSeek(ctrl, Now(k + 1))
 SeekMatters(ctrl) == LET f == FirstSeek(ctrl, 1) IN f > 0 /\ \E j \in (f + 1)..Len(ctrl) : ctrl[j][1] > 0
 UsesDiff(ctrl)    == \E i \in 1..Len(ctrl) : ctrl[i][1] > 0
 
